@@ -9,6 +9,7 @@ namespace vr {
 using namespace vm;
 
 struct Shape { std::vector<idx> s; bool thorough_only; };
+inline std::function<bool(Shape const&, bool)> shape_filter;   // optional: (shape, owning) -> use it?
 inline std::vector<Shape> const& shapes() {
 	static std::vector<Shape> const v = {
 		{{0}, false}, {{1}, false}, {{2}, false}, {{3}, false}, {{4}, false}, {{6}, false}, {{5}, true}, {{8}, true},
@@ -119,6 +120,7 @@ int main_roots(mc::Args const& args, Config const& cfg, bool thorough, Replay&& 
 			for(int owning = 0; owning < 2; ++owning) {
 				idx N = 1; for(auto s : sh.s) { N *= s; }
 				if(owning && N == 0) { continue; }  // empty owning arrays have a null base: non-zero-offset slicing is UB there (DESIGN §3)
+				if(shape_filter && !shape_filter(sh, owning != 0)) { continue; }
 				if((i++ % nshards) != shard) { continue; }
 				dispatch(sh, owning != 0, cfg, skip);
 			}
